@@ -55,6 +55,33 @@ def screen_sites(ctx):
     return out
 
 
+def control_name_travels_with_mapping(ctx, rule):
+    """With a supplied treatment mapping the encoder trusts the mapping's sentinel rows and never re-derives the controls, and the
+    constructor's control name defaults to "".  A construction that re-uses `X.treatment_mapping` therefore has to pass the control name the
+    mapping was produced under (`X.control_treatment_name`); otherwise the rebuilt screen calls one name the control while another
+    carries the sentinel."""
+    n = 0
+    for s in screen_sites(ctx):
+        if getattr(s, "opaque", False):
+            continue
+        tm = s.kw.get("treatment_mapping")
+        if tm is None or (isinstance(tm, ast.Constant) and tm.value is None):
+            continue
+        env = single_defs(s.f.node)
+        tme = inline(tm, {k: v for k, v in env.items() if k not in s.f.params})
+        if not (isinstance(tme, ast.Attribute) and tme.attr == "treatment_mapping"):
+            continue            # a mapping from elsewhere (a loaded file, a parameter): no owner to take the control name from
+        owner = U(tme.value)
+        cn = s.kw.get("control_treatment_name")
+        cne = U(inline(cn, {k: v for k, v in env.items() if k not in s.f.params})) if cn is not None else None
+        n += 1
+        ctx.check(rule, f"{s.site}::control-name-with-mapping", cne == f"{owner}.control_treatment_name",
+                  f"re-uses {owner}.treatment_mapping together with {owner}.control_treatment_name",
+                  f"the construction re-uses `{owner}.treatment_mapping` but passes control_treatment_name=`{cne if cne is not None else '<omitted: defaults to the empty name>'}`: "
+                  f"the mapping's sentinel rows were derived under `{owner}.control_treatment_name`, so in the rebuilt screen the control name and the sentinel disagree")
+    ctx.need(n >= 5, f"only {n} Screen constructions that re-use a treatment mapping found")
+
+
 def call_keywords(R, f, call, params):
     """{parameter: value expr} of a call, expanding `**{...}` dict literals and the idiom
     `**{name: getattr(obj, name) for name in CONSTANT_TUPLE}`; None if the call cannot be expanded"""
